@@ -15,7 +15,7 @@ import ast
 from .. import kafka_schema as KS
 from .. import wireshape as W
 from ..model import unparse, walk_body_shallow
-from .c02 import wrapper_offset_rule
+from .c02 import magic_arms, wrapper_offset_rule
 from .c04 import KCQ, diff_terms, tmatch
 from .util import call_name, call_recv, calls_in, need, norm, where
 
@@ -142,12 +142,11 @@ def run(ctx):
     hdr_types = W.types_only([t for t in hdr if t[0] == "P"])
     cfd = ctx.cfg(dm)
     fcd = ctx.facts(dm)
+    _dm, marms = magic_arms(ctx)
+    hdr_leaves = [t for t in hdr if t[0] == "P"]
+    hdr_att = hdr_leaves[2][2] if len(hdr_leaves) >= 3 else None  # crc, magic, attributes
     for mag in (0, 1):
-        nested = None
-        for n in cfd.nodes:
-            if n.kind == "stmt" and isinstance(n.stmt, ast.Return) and isinstance(n.stmt.value, ast.Call) and ("magic == %d" % mag, True) in fcd[n.id]:
-                nested = prog.resolve_callable(dm, n.stmt.value.func)
-        need(nested is not None, "per-magic decoder for magic %d not found" % mag)
+        nested = marms[mag][0]
         bt, _e2 = W.decoder_terms(prog, nested)
         dec = hdr_types + W.types_only([t for t in bt if t[0] in ("P", "BYTES", "STR")])
         r.check(enc.get(mag) == dec, "%s#symmetry(magic %d)" % (dm.qname, mag), "encoder writes %s, decoder reads %s" % (enc.get(mag), dec),
@@ -175,25 +174,24 @@ def run(ctx):
                        "they agree on everything except the timestamp", 4, "A")
     sibs = []
     for mag in (0, 1):
-        nested = None
-        for n in cfd.nodes:
-            if n.kind == "stmt" and isinstance(n.stmt, ast.Return) and isinstance(n.stmt.value, ast.Call) and ("magic == %d" % mag, True) in fcd[n.id]:
-                nested = prog.resolve_callable(dm, n.stmt.value.func)
+        nested = marms[mag][0]
         cn = ctx.cfg(nested)
         fn = ctx.facts(nested)
         table = {}
+        mask = [x for x in walk_body_shallow(nested.body) if isinstance(x, ast.Assign) and isinstance(x.value, ast.BinOp) and isinstance(
+            x.value.op, ast.BitAnd) and "ATTRIBUTE_CODEC_MASK" in norm(x.value)]
+        cv = norm(mask[0].targets[0]) if mask else "codec"
         for n in cn.nodes:
             for c in n.calls():
                 if call_name(c) in ("gzip_decode", "snappy_decode"):
                     for t, pol in fn[n.id]:
-                        if pol and t.startswith("codec == "):
-                            table[t[9:]] = call_name(c)
-        plain = [n for n in cn.nodes if any(isinstance(x, ast.Yield) for x in n.walk()) and ("codec == CODEC_NONE", True) in fn[n.id]]
-        rz = [n for n in cn.nodes if n.kind == "stmt" and isinstance(n.stmt, ast.Raise) and all((("codec == %s" % k), False) in fn[n.id] for k in
+                        if pol and t.startswith(cv + " == "):
+                            table[t[len(cv) + 4:]] = call_name(c)
+        plain = [n for n in cn.nodes if any(isinstance(x, ast.Yield) for x in n.walk()) and (cv + " == CODEC_NONE", True) in fn[n.id]]
+        rz = [n for n in cn.nodes if n.kind == "stmt" and isinstance(n.stmt, ast.Raise) and all(((cv + " == %s" % k), False) in fn[n.id] for k in
                                                                                                ("CODEC_NONE", "CODEC_GZIP", "CODEC_SNAPPY"))]
-        mask = [x for x in walk_body_shallow(nested.body) if isinstance(x, ast.Assign) and norm(x.targets[0]) == "codec"]
         ok = table == {"CODEC_GZIP": "gzip_decode", "CODEC_SNAPPY": "snappy_decode"} and bool(plain) and bool(rz) and len(mask) == 1 and \
-            norm(mask[0].value) in ("att & ATTRIBUTE_CODEC_MASK", "ATTRIBUTE_CODEC_MASK & att")
+            hdr_att is not None and norm(mask[0].value) in ("%s & ATTRIBUTE_CODEC_MASK" % hdr_att, "ATTRIBUTE_CODEC_MASK & %s" % hdr_att)
         r.check(ok, "%s#codec-table" % nested.qname, "decoder codec table is %s (plain arm=%s, fall-through raise=%s)" % (table, bool(plain), bool(rz)),
                 where(nested, nested.node), "gzip payload handed to snappy / unknown codec treated as plain")
         reads = [call_name(c) + ":" + norm(c.args[0]) if False else call_name(c) for c in calls_in(nested) if call_name(c) in ("read_int_string", "relative_unpack")]
